@@ -66,3 +66,7 @@ Record dstate := mkD { d_map : Z -> Z -> option Q; d_valid : Z -> Z -> bool }.
 Definition has_cost (m : measure) (inp : mc_input) (dmin dmax r c : Z) : bool :=
   existsb (fun k => match mvolume m inp dmin dmax r c k with Some _ => true | None => false end)
           (zrange 0 (nb_disp (i_s inp) dmin dmax)).
+
+(* the costs of pixel (r, c) along the axis as the refinement kernel reads them (cv[row, col, :], NaN = None) *)
+Definition cost_row (val : cellv -> Q) (m : measure) (inp : mc_input) (dmin dmax : Z) (r c : Z) : list (option Q) :=
+  map (fun k => omap val (mvolume m inp dmin dmax r c k)) (zrange 0 (nb_disp (i_s inp) dmin dmax)).
